@@ -1757,6 +1757,23 @@ fn handmade() -> Vec<(&'static str, Vec<&'static str>, Vec<&'static str>, Vec<(&
             vec![("x.kbd", vec!["(defsrc a b)"])],
             "p:a t:50 r:a p:b r:b t:500",
         ),
+        // an include of a file that does not exist is rejected wherever the include stands (aims at the
+        // "file is not known" answer of the file provider - cfg/mod.rs verif_expand_pipeline and
+        // expand_includes - which no generated rewrite produces: rw_include always adds the file)
+        (
+            "posrej",
+            vec!["(defsrc a b)", "(deflayer l0 1 2)", "(include nofile.kbd)"],
+            vec!["(include x.kbd)", "(include nofile.kbd)", "(platform (linux) (deflayer l0 1 2))"],
+            vec![("x.kbd", vec!["(defsrc a b)"])],
+            "p:a t:50 r:a t:500",
+        ),
+        (
+            "posrej",
+            vec!["(include nofile.kbd)", "(defsrc a b)", "(deflayer l0 1 2)"],
+            vec!["(deftemplate src () (defsrc a b))", "(include \"nofile.kbd\")", "(t! src)", "(deflayer l0 1 2)"],
+            vec![],
+            "p:a t:50 r:a t:500",
+        ),
         // finding D2: concat inside a template is evaluated with an empty variable table
         (
             "pos",
